@@ -460,6 +460,14 @@ func main() {
 				v := v
 				ops = append(ops, opT{fmt.Sprintf("deliver(v%d)", v), func() { f.n.Exec.VerifSingleCommitValidator(msgOf(v)) }})
 			}
+			// the node's own certification of the same height (its validator's commit may already have arrived by gossip)
+			for _, v := range actE[:2] {
+				v := v
+				ops = append(ops, opT{fmt.Sprintf("certify(v%d)", v), func() {
+					k := node.KeysOf(v)
+					_ = f.n.Exec.Certify(hE-1, hE, k.Address, k.BLSPriv)
+				}})
+			}
 			ops = append(ops, opT{"gossip-step(select+upgrade)", func() { pool.Upgrade(pool.Select(pc, len(actE))) }})
 			depth := 4
 			var seq []int
